@@ -670,6 +670,53 @@ def empty_hash_cases():
     return out
 
 
+def literal_before_hash_cases():
+    """`the same location is recognised however it is written (runtime hash ..., precomputed hash constant ...)`: a value stored
+    at the precomputed constant keccak256(key . slot) BEFORE that hash is computed on the path must be found by the later access
+    through the runtime hash (and the other way round).  KNOWN FINDING C08-F20 (solidity layout, constant first)"""
+    from eth_hash.auto import keccak
+
+    out = []
+    pre = (5).to_bytes(32, "big") + (1).to_bytes(32, "big")  # mapping at slot 1, key 5
+    LIT = int.from_bytes(keccak(pre), "big")
+
+    for layout in ("solidity", "generic"):
+        for order in ("constant first", "hash first"):
+
+            def harness(interp, layout=layout, order=order):
+                ctx = interp.ctx
+                sevm = mk_sevm(storage_layout=layout)
+                ex = mk_ex(sevm)
+                v = z3.BitVec("v", 256)
+                if order == "constant first":
+                    sevm.sstore(ex, THIS, hb.HalmosBitVec(LIT), hb.HalmosBitVec(v))
+                    h = ex.sha3_data(pre)
+                    got = val(sevm.sload(ex, THIS, hb.HalmosBitVec(h)))
+                else:
+                    h = ex.sha3_data(pre)
+                    sevm.sstore(ex, THIS, hb.HalmosBitVec(h), hb.HalmosBitVec(v))
+                    got = val(sevm.sload(ex, THIS, hb.HalmosBitVec(LIT)))
+                ctx.oblige(f"{order}: the value stored through one spelling of m[5] is read back through the other", After(ex, got == v).f, info={"got": str(got)[:80]})
+
+            out.append(Case(f"{PROP}/sevm.Storage#constant-vs-runtime-hash", f"{layout}, {order}", harness, replay=replay_literal_before_hash, sources=("halmos.sevm:SolidityStorage.decode", "halmos.sevm:GenericStorage.decode", "halmos.sevm:Exec.sha3_data")))
+    return out
+
+
+def replay_literal_before_hash(r):
+    """concrete program on the real SEVM against the reference EVM: sstore(keccak(5 . 1), 0x77); return sload(sha3(5 . 1))"""
+    from contracts.c01 import compare_with_reference
+    from eth_hash.auto import keccak
+
+    pre = (5).to_bytes(32, "big") + (1).to_bytes(32, "big")
+    lit = keccak(pre)
+    P1 = lambda v: bytes([0x60, v])  # noqa: E731
+    code = P1(0x77) + bytes([0x7F]) + lit + bytes([0x55]) + P1(5) + P1(0) + bytes([0x52]) + P1(1) + P1(0x20) + bytes([0x52]) + P1(0x40) + P1(0) + bytes([0x20, 0x54]) + P1(0) + bytes([0x52]) + P1(0x20) + P1(0) + bytes([0xF3])
+    diff = compare_with_reference(code)
+    if diff:
+        return {"reproduced": True, "detail": f"concrete program (solidity layout) PUSH1 0x77; PUSH32 keccak(5 . 1); SSTORE; mem = 5 . 1; SHA3(0, 64); SLOAD; return: {diff}", "inputs": code.hex()}
+    return {"reproduced": False, "detail": "the concrete program agrees with the reference EVM"}
+
+
 def replay_empty_hash(r):
     K = hs.EMPTY_KECCAK
     for layout in ("solidity", "generic"):
@@ -763,7 +810,7 @@ def substitution_ownership_cases():
 
 
 def build_cases(tier="quick"):
-    return substitution_ownership_cases() + select_cases_c08() + sha3_tracking_cases() + transient_vs_symbolic_cases() + solidity_cases() + generic_cases() + sevm_cases() + offsetmap_cases() + empty_hash_cases()
+    return literal_before_hash_cases() + substitution_ownership_cases() + select_cases_c08() + sha3_tracking_cases() + transient_vs_symbolic_cases() + solidity_cases() + generic_cases() + sevm_cases() + offsetmap_cases() + empty_hash_cases()
 
 
 def grounds():
